@@ -1,4 +1,4 @@
 SPECIFICATION TSpec
 CONSTANT MaxDepth = 8
-INVARIANTS WellNested RejectedNeverEnters AtMostOnce Balanced
+INVARIANTS NoUseAfterDrop WellNested RejectedNeverEnters AtMostOnce Balanced
 POSTCONDITION Accepted
